@@ -143,6 +143,147 @@ pub fn case_strategy(p: &Profile) -> impl Strategy<Value = HistCase> {
         .prop_flat_map(|(base, ops, extra_tracers)| prop_oneof![7 => Just(0u8), 1 => Just(130u8)].prop_map(move |id_offset| HistCase { base: base.clone(), ops: ops.clone(), extra_tracers, id_offset }))
 }
 
+// ------------------------------------------------------------------ byte decoder (fuzz target)
+
+/// Reads choices from a byte string; an exhausted input reads as zeros.
+pub struct ByteSource<'a> {
+    d: &'a [u8],
+    i: usize,
+}
+impl<'a> ByteSource<'a> {
+    pub fn new(d: &'a [u8]) -> Self {
+        Self { d, i: 0 }
+    }
+    pub fn is_empty(&self) -> bool {
+        self.i >= self.d.len()
+    }
+    pub fn u8(&mut self) -> u8 {
+        let v = self.d.get(self.i).copied().unwrap_or(0);
+        self.i += 1;
+        v
+    }
+    pub fn u16(&mut self) -> u16 {
+        u16::from_le_bytes([self.u8(), self.u8()])
+    }
+    pub fn u64(&mut self) -> u64 {
+        let mut b = [0u8; 8];
+        for x in b.iter_mut() {
+            *x = self.u8();
+        }
+        u64::from_le_bytes(b)
+    }
+    pub fn bool(&mut self) -> bool {
+        self.u8() & 1 == 1
+    }
+    /// uniform-ish choice in 0..n (n <= 65536)
+    pub fn below(&mut self, n: usize) -> usize {
+        if n <= 1 {
+            0
+        } else if n <= 256 {
+            self.u8() as usize % n
+        } else {
+            self.u16() as usize % n
+        }
+    }
+}
+
+fn dec_bad(s: &mut ByteSource, pct: u32) -> u8 {
+    let p = s.below(100) as u32;
+    let b = s.u8();
+    if p < pct {
+        1 + b % 3
+    } else {
+        0
+    }
+}
+
+fn dec_policy(s: &mut ByteSource) -> PolicySpec {
+    let broadcast = s.below(100) < 6;
+    let ng = 1 + s.below(2);
+    let mut groups = vec![];
+    for _ in 0..ng {
+        let nf = 1 + s.below(2);
+        let mut g = vec![];
+        for _ in 0..nf {
+            let d = s.u16();
+            let na = 1 + s.below(2);
+            g.push((d, (0..na).map(|_| s.u16()).collect()));
+        }
+        groups.push(g);
+    }
+    let shape = s.u64();
+    let stars = if s.below(5) == 4 { s.u8() } else { 0 };
+    PolicySpec { broadcast, groups, shape, stars }
+}
+
+fn dec_op(s: &mut ByteSource, p: &Profile) -> Option<Op> {
+    let b = p.bad_pct;
+    let weights = [
+        p.add_dim, p.del_dim, p.add_attr, p.del_attr, p.rename, p.disable, p.update, p.rekey, p.prune, p.keygen, p.refresh, p.encaps, p.encaps_for, p.encaps_wide, p.check, p.roundtrip, p.recaps, p.stale, p.forged,
+    ];
+    let total: u32 = weights.iter().sum();
+    if total == 0 {
+        return None;
+    }
+    let mut k = s.below(total as usize) as u32;
+    let mut which = 0;
+    for (i, w) in weights.iter().enumerate() {
+        if k < *w {
+            which = i;
+            break;
+        }
+        k -= *w;
+    }
+    Some(match which {
+        0 => Op::AddDim { name: s.below(8) as u8, hier: s.bool() },
+        1 => Op::DelDim { dim: s.u16(), bad: (s.below(100) as u32) < b },
+        2 => Op::AddAttr { dim: s.u16(), name: s.below(16) as u8, hybrid: s.bool(), after: if s.below(10) < 6 { Some(s.u16()) } else { None }, bad: dec_bad(s, b) },
+        3 => Op::DelAttr { dim: s.u16(), attr: s.u16(), bad: (s.below(100) as u32) < b },
+        4 => Op::Rename { dim: s.u16(), attr: s.u16(), new: s.below(16) as u8, bad: (s.below(100) as u32) < b },
+        5 => Op::Disable { dim: s.u16(), attr: s.u16(), bad: (s.below(100) as u32) < b },
+        6 => Op::Update,
+        7 => Op::Rekey { ap: dec_policy(s), bad: dec_bad(s, b) },
+        8 => Op::Prune { ap: dec_policy(s), bad: dec_bad(s, b) },
+        9 => Op::KeyGen { ap: dec_policy(s), bad: dec_bad(s, b) },
+        10 => Op::Refresh { usk: s.u16(), keep: s.bool() },
+        11 => Op::Encaps { mpk: s.u16(), ap: dec_policy(s), bad: dec_bad(s, b) },
+        12 => Op::EncapsFor { mpk: s.u16(), usk: s.u16(), variant: s.u8() },
+        13 => Op::EncapsWide { mpk: s.u16(), dim: s.u16() },
+        14 => Op::Check,
+        15 => Op::RoundTrip { what: [0u8, 0, 0, 1, 2, 2, 3][s.below(7)], sel: s.u16() },
+        16 => Op::Recaps { enc: s.u16(), mpk: s.u16() },
+        17 => Op::ProbeStale { back: s.below(6) as u8, usk: s.u16(), keep: s.bool() },
+        _ => Op::ProbeForged { usk: s.u16(), kind: s.below(7) as u8, keep: s.bool() },
+    })
+}
+
+/// A history decoded from bytes: the same case space as `case_strategy`, laid out so that byte
+/// mutations (insert / delete / splice) of a fuzzer are mutations of the operation sequence.
+pub fn decode_case(data: &[u8], p: &Profile) -> HistCase {
+    let mut s = ByteSource::new(data);
+    let extra_tracers = [0u8, 0, 0, 0, 0, 0, 1, 2][s.below(8)];
+    let id_offset = if s.below(8) == 7 { 130 } else { 0 };
+    let nd = 1 + s.below(p.max_dims.max(1));
+    let mut raw = vec![];
+    for _ in 0..nd {
+        let hier = s.bool();
+        let n = 1 + s.below(p.max_attrs.max(1));
+        let order_seed = s.u16();
+        let hints: Vec<u8> = (0..p.max_attrs).map(|_| s.below(4) as u8).collect();
+        let name_seed = s.u16();
+        raw.push((hier, n, order_seed, hints, name_seed));
+    }
+    let base = crate::gen::struct_from_raw(raw, p.max_rights, p.odd_names);
+    let mut ops = vec![];
+    while ops.len() < p.max_ops && !s.is_empty() {
+        match dec_op(&mut s, p) {
+            Some(op) => ops.push(op),
+            None => break,
+        }
+    }
+    HistCase { base, ops, extra_tracers, id_offset }
+}
+
 pub struct Outcome {
     pub events: BTreeSet<&'static str>,
     pub trace: Vec<String>,
